@@ -31,7 +31,9 @@ import (
 	"verifharness/gal"
 )
 
-const knownTrailing = "C16-from-bytes-trailing-bytes-accepted"
+// repaired in /repo 4a8d65e; the probe below stays as a regression witness (a reproduced probe
+// of a finding that is not open is a violation)
+const formerTrailing = "C16-from-bytes-trailing-bytes-accepted"
 
 // serialised width in bytes, read off the register's DECLARED raw accessor (the RawRegister*
 // interfaces of registers.go), not off ValueBytes / ValueFromBytes
@@ -154,12 +156,7 @@ func judgeFromBytes(c *gal.Ctx, idx int, p registers.Register, b []byte, panicke
 			raw, _ := rawOf(back)
 			got = fmt.Sprintf("register %s raw %#x", back.ID(), raw)
 		}
-		txt := fmt.Sprintf("%s returns %s and no error: %d byte(s) do not denote a value of this %d-byte register", what, got, len(b), w)
-		if len(b) > w && !isKey(p) && back != nil && sameSet([]registers.Register{mk(p, leNumber(b[:w]))}, []registers.Register{back}) == "" {
-			c.OracleFailKnown(idx, knownTrailing, txt+" (the bytes after the first "+fmt.Sprint(w)+" are ignored)", site, d)
-		} else {
-			c.OracleFail(idx, txt, site, d)
-		}
+		c.OracleFail(idx, fmt.Sprintf("%s returns %s and no error: %d byte(s) do not denote a value of this %d-byte register", what, got, len(b), w), site, d)
 	case len(b) != w:
 		c.OracleOK() // refused
 	case !fitsType(p, leNumber(b)):
@@ -293,12 +290,7 @@ func runDamagedDoc(c *gal.Ctx, kind, format, text, lit string, modelled bool, p 
 	case err != nil:
 		c.OracleOK()
 	default: // accepted although one entry denotes no value
-		txt := what + fmt.Sprintf(" is accepted (%d register(s): %v): the entry does not denote a value of the register", len(got), regsJSON(got))
-		if dmg.long && !isKey(p) && !hasNil(got) && sameSet(want, got) == "" {
-			c.OracleFailKnown(idx, knownTrailing, txt+" (the bytes after the first "+fmt.Sprint(serWidth(p))+" are ignored)", site, d)
-		} else {
-			c.OracleFail(idx, txt, site, d)
-		}
+		c.OracleFail(idx, what+fmt.Sprintf(" is accepted (%d register(s): %v): the entry does not denote a value of the register", len(got), regsJSON(got)), site, d)
 	}
 }
 
@@ -406,12 +398,12 @@ func runWidths(c *gal.Ctx) {
 	runFromBytesUnknown(c)
 	runDamagedJSON(c)
 	runDamagedYAML(c)
-	// fixed witness of the open finding: one byte too many for the one-byte register
+	// fixed witness of the former finding: one byte too many for the one-byte register
 	{
 		var back registers.Register
 		var err error
 		panicked, _ := gal.Recover(func() { back, err = registers.ValueFromBytes(registers.TXTErrorStatusRegisterID, []byte{0x01, 0xff}) })
 		rep := !panicked && err == nil && back != nil
-		c.Probe(knownTrailing, rep, "registers.ValueFromBytes(TXT.ESTS, []byte{0x01, 0xff}) returns a register (raw 0x1) and no error although TXT.ESTS is serialised as one byte")
+		c.Probe(formerTrailing, rep, "registers.ValueFromBytes(TXT.ESTS, []byte{0x01, 0xff}) returns a register (raw 0x1) and no error although TXT.ESTS is serialised as one byte")
 	}
 }
